@@ -302,6 +302,23 @@ func (ir *ifdReader) ParseRationalU(t Tag) [2]uint32 {
 // ParseUint32 parses a Uint32 value.
 // Embedded tag with value length 4 bytes.
 func (ir *ifdReader) ParseUint32(t Tag) uint32 {
+	if !t.IsEmbedded() && (t.Type == tag.TypeLong || t.Type == tag.TypeShort) {
+		// An array stored out of line (StripOffsets of several strips,
+		// ISOSpeedRatings with several values): ValueOffset points at it,
+		// the first element is the value.
+		n := int(t.Type.Size())
+		if err := ir.seekToTag(t); err != nil {
+			return 0
+		}
+		buf, err := ir.fastRead(n)
+		if err != nil {
+			return 0
+		}
+		if n == 4 {
+			return t.ByteOrder.Uint32(buf)
+		}
+		return uint32(t.ByteOrder.Uint16(buf))
+	}
 	switch t.Type {
 	case tag.TypeLong:
 		return uint32(t.ValueOffset)
